@@ -1094,7 +1094,7 @@ TRACE_CONTRACTS = [
          config=Config(events=[(r"self\.complete_value$", "complete"), (r"self\._handle_non_nullable_value$", _handle_label)],
                        nothrow=[r"self\._handle_non_nullable_value$"]),
          clauses=_non_null_completion_clauses(), assumes=[]),
-    dict(id="Executor.complete_value", target="py_gql.execution.executor:Executor.complete_value", props=["C04", "C16"],
+    dict(id="Executor.complete_value", target="py_gql.execution.executor:Executor.complete_value", props=["C04", "C08", "C16"],
          config=Config(events=[(r"self\.complete_non_nullable_value$", "complete_non_nullable"), (r"self\.complete_list_value$", "complete_list"),
                                (r"^is_iterable$", "is_iterable"), (r"field_type\.serialize$", "serialize"), (r"field_type\.get_name$", "get_name"),
                                (r"self\.resolve_type$", "resolve_type"), (r"self\.execute_fields$", "execute_fields"), (r"self\.collect_fields$", "collect_fields")],
